@@ -1,4 +1,4 @@
-CONSTANTS MaxCount = 3 MaxExtra = 1
+CONSTANTS MaxCount = 3 MaxExtra = 1 Rule = "coded"
 SPECIFICATION Spec
 INVARIANTS TypeOK
 CONSTRAINT Dump
